@@ -333,6 +333,19 @@ def array_payload(ctx_or_cex, code, m, sym_at):
     return out
 
 
+ADDR_ALPHABET = ["01:145038", "04:056789", "--:------", "63:262142", "18:000730", "01:145039"]
+
+
+def h_addrset(ctx, head, pay, via="file"):
+    """every combination of the three address fields over a small alphabet (devices, null, broadcast, gateway placeholder)"""
+    import symx
+
+    a = [symx.choice(ctx, f"a{i}", ADDR_ALPHABET) for i in range(3)]
+    line = head[:11] + a[0] + " " + a[1] + " " + a[2] + head[40:] + pay
+    out, msg = decode_c01(ctx, line, via)
+    return out
+
+
 def h_array(ctx, code, m, sym_at=None):
     """an m-element array decodes to the list of what each element decodes to on its own"""
     from ramses_tx.message import Message
@@ -413,6 +426,9 @@ def concrete_line(item):
         addrs = [a + " " + b + " --:------", a + " --:------ " + a, "--:------ --:------ " + a, a + " " + a + " --:------"][sh]
         n = prm["n"]
         return "045 " + prm["verb"] + " --- " + addrs + " " + prm["code"] + " " + f"{n:03d}" + " " + cex["p"], prm["code"], cex["p"]
+    if h == "addrset":
+        head = prm["head"]
+        return head[:11] + cex["a0"] + " " + cex["a1"] + " " + cex["a2"] + head[40:] + prm["pay"], None, prm["pay"]
     if h == "field":
         a, b = FIELDS[prm["field"]]
         return prm["head"][:a] + cex["f"] + prm["head"][b:] + prm["pay"], None, prm["pay"]
